@@ -408,11 +408,12 @@ func runCase(cs Case, suite map[string]*compliance.TestSpec) (CaseResult, []stri
 		if !ok {
 			continue
 		}
-		if e == nil || cs.Kind != "suite" {
+		suiteLike := cs.Kind == "suite" || cs.Kind == "first"
+		if e == nil || !suiteLike {
 			if e != nil {
 				e.stop()
 			}
-			if cs.Kind != "suite" {
+			if !suiteLike {
 				applyConfig(cfg)
 			}
 			if e, err = newEnv(kind, cfg); err != nil {
@@ -433,7 +434,7 @@ func runCase(cs Case, suite map[string]*compliance.TestSpec) (CaseResult, []stri
 				problems = append(problems, fmt.Sprintf("HANG: test %q still running after %v on the reference server", name, wd))
 			}
 			e = nil
-		} else if cs.Kind == "suite" {
+		} else if cs.Kind == "suite" || cs.Kind == "first" {
 			r.NotReset = append(e.fwd.resetProblems("server allowing forward references"), e.nofwd.resetProblems("server disallowing forward references")...)
 			m1, f1, _ := e.fwd.rec.take()
 			m2, f2, _ := e.nofwd.rec.take()
@@ -591,6 +592,26 @@ func generate(seed int64, n int, tier string, names []string) []Case {
 		}
 		cases = append(cases, Case{Kind: "cells", Server: k, Config: cfg, Order: order, Seed: seed})
 	}
+	// every test as the FIRST test of a process, followed by three sentinels on the same long-lived reference servers:
+	// whatever a test leaves behind in the process (package variables of the suite, of its checkers or of the client)
+	// must not change the verdict of what runs after it
+	var sentinels []string
+	for _, sub := range []string{"Add IPv4 entry that can be programmed on the server - with RIB ACK", "Election - Sending same election ID from two clients", "Add next-hop-group entry that can be resolved on the server, no referencing IPv4 entries - with RIB ACK"} {
+		for _, n := range names {
+			if n == sub {
+				sentinels = append(sentinels, n)
+			}
+		}
+	}
+	for _, n := range names {
+		order := []string{n}
+		for _, s := range sentinels {
+			if s != n {
+				order = append(order, s)
+			}
+		}
+		cases = append(cases, Case{Kind: "first", Server: "reference", Config: configs[1], Order: order, Seed: seed})
+	}
 	if len(fibACK) > 0 {
 		// one of the tests that wait for the FIB acknowledgement, against the server that never sends it, with the
 		// patience the suite's own one-minute bounds require (run in a process of its own, beside everything else)
@@ -628,36 +649,41 @@ func run(args []string) error {
 	// (the compliance package keeps its election-id counter and instance names in package variables) that runs
 	// beside the other cases; a replay runs them in place
 	type child struct {
-		cmd *exec.Cmd
-		dir string
+		cmd  *exec.Cmd
+		dir  string
+		done chan error
 	}
 	children := map[int]*child{}
+	pool := make(chan struct{}, 8) // "first" cases: at most eight child processes at a time
 	if *fl.Replay == "" {
 		for i, cs := range cases {
-			if cs.Kind != "patient" {
+			if cs.Kind != "patient" && cs.Kind != "first" {
 				continue
 			}
-			dir := filepath.Join(*fl.Out, fmt.Sprintf("patient%d", i))
+			dir := filepath.Join(*fl.Out, fmt.Sprintf("%s%d", cs.Kind, i))
 			os.MkdirAll(dir, 0o755)
 			if err := drv.WriteJSON(filepath.Join(dir, "in.json"), []Case{cs}); err != nil {
 				return err
 			}
 			cmd := exec.Command(os.Args[0], "c19", "-replay", filepath.Join(dir, "in.json"), "-out", dir)
-			if err := cmd.Start(); err != nil {
-				return err
+			ch := &child{cmd: cmd, dir: dir, done: make(chan error, 1)}
+			children[i] = ch
+			if cs.Kind == "patient" {
+				go func() { ch.done <- cmd.Run() }()
+			} else {
+				go func() { pool <- struct{}{}; err := cmd.Run(); <-pool; ch.done <- err }()
 			}
-			children[i] = &child{cmd: cmd, dir: dir}
 		}
 	}
 	for i, cs := range cases {
 		var cr CaseResult
 		var problems []string
 		if ch := children[i]; ch != nil {
-			werr := ch.cmd.Wait()
+			werr := <-ch.done
 			var rs []CaseResult
 			var crep drv.Report
 			if err := drv.ReadJSON(filepath.Join(ch.dir, "results.json"), &rs); err != nil || len(rs) != 1 || werr != nil {
-				return fmt.Errorf("patient case %d: child process: %v %v", i, werr, err)
+				return fmt.Errorf("%s case %d: child process: %v %v", cs.Kind, i, werr, err)
 			}
 			drv.ReadJSON(filepath.Join(ch.dir, "impl.json"), &crep)
 			cr = rs[0]
